@@ -1,4 +1,5 @@
 import gfapy
+import re
 
 class Trace(list):
   """Trace alignment.
@@ -73,7 +74,11 @@ class Trace(list):
   @classmethod
   def _from_string(cls,string):
     try:
-      return Trace([int(v) for v in string.split(",")])
+      elems = string.split(",")
+      for v in elems:
+        if not re.fullmatch(r"-?[0-9]+", v):
+          raise gfapy.FormatError()
+      return Trace([int(v) for v in elems])
     except:
       raise gfapy.FormatError("string does not encode"+
           " a valid trace alignment: {}".format(string))
